@@ -13,11 +13,22 @@
 //   <outdir>/<id>/testbench.testvectors  SET/CHECK/ADV/RST stream recorded by the exporter's
 //                                FileBasedTestbenchRecorder from a simulation process that applies
 //                                the stimuli of trace 0 and reads every output pin each cycle
+//   <outdir>/<id>.meta           the `meta` line of the half-period traces (always written)
 //   <outdir>/<id>.tbtrace        what that simulation process itself read (cross-check)
+//   <outdir>/<id>.htrace         HALF-PERIOD traces (own runner below): inputs change and outputs are sampled at T/4 + k*T/2,
+//                                i.e. between every two clock edges, so that the edge a register is clocked on is observable;
+//                                events carry the exported port names (`E`/`e` clock pin rising/falling, `R1@rst`/`R0@rst` level of
+//                                reset pin `rst`); first line after `trace`: `meta classic=0|1 clkport=<name> edges=<R|F|B...>`
+//                                (classic = single clock pin, rising edge only, at most one reset pin: what the certificate checker's
+//                                circuit model covers).  The recorded test vectors use the half-period stimulus 0 as well.
+// design-program extensions:  clockcfg ..  |  clockdef NAME [rising|falling|both] [sync|async|none] [high|low] [rst RESETNAME]
+//                             (a clock derived from the design clock on the SAME clock pin)  |  clk NAME ... endclk (ClockScope)
 // A design that cannot be built/exported gets "SKIP <id> <reason>" in .net/.trace.
 #include "netdump.h"
 #include <gatery/export/vhdl/VHDLExport.h>
 #include <gatery/export/vhdl/AST.h>
+#include <gatery/export/vhdl/Entity.h>
+#include <gatery/export/vhdl/NamespaceScope.h>
 #include <gatery/frontend/SynthesisTool.h>
 #include <gatery/hlim/coreNodes/Node_Pin.h>
 #include <filesystem>
@@ -40,12 +51,42 @@ class Interp2 : public nd::Interp {
 public:
 	std::vector<std::unique_ptr<Memory<UInt>>> mems;
 	std::map<std::string, size_t> memIdx;
+	Clock *mainClock = nullptr;
+	std::map<std::string, std::unique_ptr<Clock>> clocks;
+	std::vector<std::unique_ptr<ClockScope>> clockStack;
 	std::vector<std::unique_ptr<Memory<Bit>>> bmems;
 	std::map<std::string, size_t> bmemIdx;
 	virtual void stmt(const std::vector<std::string> &t) override {
 		const std::string &op = t[0];
 		auto setU = [&](const std::string &n, const UInt &v) { auto p = std::make_shared<nd::Val>(); p->v.emplace<UInt>(v); b.vars[n] = p; };
-		if (op == "mem") {            // mem NAME depth width
+		if (op == "clockdef") {
+			ClockConfig cfg;
+			for (size_t i = 2; i < t.size(); i++) {
+				if (t[i] == "falling") cfg.triggerEvent = ClockConfig::TriggerEvent::FALLING;
+				else if (t[i] == "rising") cfg.triggerEvent = ClockConfig::TriggerEvent::RISING;
+				else if (t[i] == "both") cfg.triggerEvent = ClockConfig::TriggerEvent::RISING_AND_FALLING;
+				else if (t[i] == "sync") cfg.resetType = ClockConfig::ResetType::SYNCHRONOUS;
+				else if (t[i] == "async") cfg.resetType = ClockConfig::ResetType::ASYNCHRONOUS;
+				else if (t[i] == "none") cfg.resetType = ClockConfig::ResetType::NONE;
+				else if (t[i] == "high") cfg.resetActive = ClockConfig::ResetActive::HIGH;
+				else if (t[i] == "low") cfg.resetActive = ClockConfig::ResetActive::LOW;
+				else if (t[i] == "rst" && i + 1 < t.size()) cfg.resetName = t[++i];
+				else throw std::runtime_error("clockdef option " + t[i]);
+			}
+			clocks[t[1]] = std::make_unique<Clock>(mainClock->deriveClock(cfg));
+		} else if (op == "clk") {
+			clockStack.push_back(std::make_unique<ClockScope>(*clocks.at(t[1])));
+		} else if (op == "endclk") {
+			if (clockStack.empty()) throw std::runtime_error("endclk");
+			clockStack.pop_back();
+		} else if (op == "cdc") {       // cdc NAME SRC FROMCLK TOCLK   (marks an intended crossing; "main" = design clock)
+			auto &from = t[3] == "main" ? *mainClock : *clocks.at(t[3]);
+			auto &to = t[4] == "main" ? *mainClock : *clocks.at(t[4]);
+			nd::Val &a = get(t[2]);
+			auto p = std::make_shared<nd::Val>();
+			if (a.isBit()) p->v.emplace<Bit>(allowClockDomainCrossing(a.b(), from, to)); else p->v.emplace<UInt>(allowClockDomainCrossing(a.u(), from, to));
+			b.vars[t[1]] = p;
+		} else if (op == "mem") {            // mem NAME depth width
 			mems.push_back(std::make_unique<Memory<UInt>>(std::stoull(t[2]), UInt(BitWidth(std::stoull(t[3])))));
 			mems.back()->setName(t[1]);
 			if (t.size() > 4 && t[4] == "zero") mems.back()->initZero();
@@ -90,16 +131,64 @@ static void setPin(sim::Simulator &sim, hlim::Node_Pin *pin, const std::string &
 	sim.simProcSetInputPin(pin, st);
 }
 
+struct NamedObserver : public sim::SimulatorCallbacks {
+	std::map<const hlim::Clock*, std::string> resetNames;
+	std::vector<std::string> events;
+	virtual void onReset(const hlim::Clock *clock, bool level) override {
+		auto it = resetNames.find(clock);
+		events.push_back(std::string("R") + (level ? "1" : "0") + "@" + (it == resetNames.end() ? std::string("?") : it->second));
+	}
+	virtual void onClock(const hlim::Clock *clock, bool risingEdge) override { events.push_back(risingEdge ? "E" : "e"); }
+};
+
+// like nd::runTrace, but one sample per HALF period
+static void runHalfTrace(hlim::Circuit &circuit, hlim::ClockRational period, const std::vector<std::vector<std::string>> &stim, std::ostream &o,
+                         const std::string &tag, const std::string &meta, const std::map<const hlim::Clock*, std::string> &resetNames) {
+	nd::Pins pins = nd::findPins(circuit);
+	sim::ReferenceSimulator sim(false);
+	NamedObserver obs; obs.resetNames = resetNames;
+	sim.addCallbacks(&obs);
+	sim.compileProgram(circuit);
+	sim.powerOn();
+	o << "trace " << tag << "\nmeta " << meta << "\npins in";
+	for (auto *p : pins.ins) o << " " << p->getName() << ":" << p->getConnectionType().width;
+	o << " out";
+	for (auto *p : pins.outs) o << " " << p->getName() << ":" << p->getConnectionType().width;
+	o << "\n";
+	sim.advance(period / 4ull);
+	for (size_t cyc = 0; cyc < stim.size(); cyc++) {
+		o << "ev";
+		for (auto &e : obs.events) o << " " << e;
+		obs.events.clear();
+		o << "\n";
+		for (size_t i = 0; i < pins.ins.size(); i++) setPin(sim, pins.ins[i], i < stim[cyc].size() ? stim[cyc][i] : std::string());
+		sim.reevaluate();
+		o << "cy " << cyc << " in";
+		for (size_t i = 0; i < pins.ins.size(); i++) o << " " << (i < stim[cyc].size() && !stim[cyc][i].empty() ? stim[cyc][i] : std::string("e"));
+		o << " out";
+		for (auto *p : pins.outs) {
+			auto drv = p->getDriver(0);
+			if (drv.node == nullptr) { o << " " << (p->getConnectionType().width ? std::string(p->getConnectionType().width, 'X') : std::string("e")); continue; }
+			o << " " << nd::bitsOrE(sim.getValueOfOutput(drv));
+		}
+		o << "\n";
+		sim.advance(period / 2ull);
+	}
+	o << "endtrace\n";
+}
+
 int main(int argc, char **argv) {
 	if (argc < 6) { std::cerr << "usage: C02_export run|replay <programs> <nstim|stimfile> <cycles> <outdir> [single|entity|partition]\n"; return 2; }
 	std::string mode = argv[1];
 	std::ifstream pin(argv[2]);
 	std::map<std::string, std::vector<std::vector<std::string>>> fixedStim;
+	std::set<std::string> halfStim;     // replay stimuli given as "H:<stim>" are half-period stimuli
 	size_t nStim = 0, cycles = 0;
 	if (mode == "replay") {
 		std::ifstream sf(argv[3]); std::string line;
 		while (std::getline(sf, line)) {
 			std::istringstream ls(line); std::string id, rest; ls >> id >> rest;
+			if (rest.rfind("H:", 0) == 0) { rest = rest.substr(2); halfStim.insert(id); }
 			std::vector<std::vector<std::string>> st;
 			std::istringstream cs(rest); std::string cyc;
 			while (std::getline(cs, cyc, ';')) {
@@ -120,7 +209,7 @@ int main(int argc, char **argv) {
 		std::string base = outdir + "/" + prog.id;
 		std::filesystem::remove_all(base);
 		std::filesystem::create_directories(base);
-		std::ofstream net(base + ".net"), trace(base + ".trace"), tbtrace(base + ".tbtrace");
+		std::ofstream net(base + ".net"), trace(base + ".trace"), tbtrace(base + ".tbtrace"), htrace(base + ".htrace");
 		try {
 			DesignScope design;
 			// optional per-design clock settings (first statement):  clockcfg <sync|async|none> <high|low> [falling]
@@ -133,9 +222,11 @@ int main(int argc, char **argv) {
 			Clock clock(cfg);
 			ClockScope cs(clock);
 			Interp2 in;
+			in.mainClock = &clock;
 			nd::Program p2 = prog;
 			p2.stmts.erase(std::remove_if(p2.stmts.begin(), p2.stmts.end(), [](auto &s){ return s[0] == "clockcfg"; }), p2.stmts.end());
 			in.run(p2);
+			in.clockStack.clear();
 			if (in.dropAll) { in.b.vars.clear(); }
 			design.postprocess();
 
@@ -152,6 +243,29 @@ int main(int argc, char **argv) {
 				stims.push_back(stim);
 			}
 
+			// half-period stimuli (2*cycles samples); in replay mode only if the stimulus was given as H:
+			std::vector<std::vector<std::vector<std::string>>> hstims;
+			bool replayHalf = mode == "replay" && halfStim.count(prog.id);
+			if (replayHalf) { hstims = stims; stims.clear(); }
+			else if (mode != "replay") for (size_t k = 0; k < nStim; k++) {
+				vh::Rng rng(seed * 7000003ull + std::hash<std::string>{}(prog.id) * 37ull + k);
+				std::vector<std::vector<std::string>> stim(2 * cycles);
+				for (auto &cyc : stim) for (auto *p : pins.ins) cyc.push_back(randBits(rng, p->getConnectionType().width, (int)(k % 3)));
+				hstims.push_back(stim);
+			}
+			// which clocking does the design use?
+			std::set<const hlim::Clock*> clkPins, rstPins; std::string edges;
+			for (auto &n : design.getCircuit().getNodes())
+				for (auto *c : n->getClocks()) if (c) {
+					clkPins.insert(c->getClockPinSource());
+					if (c->getRegAttribs().resetType != hlim::RegisterAttributes::ResetType::NONE) rstPins.insert(c->getResetPinSource());
+					char e = c->getTriggerEvent() == hlim::Clock::TriggerEvent::RISING ? 'R' : c->getTriggerEvent() == hlim::Clock::TriggerEvent::FALLING ? 'F' : 'B';
+					if (edges.find(e) == std::string::npos) edges += e;
+				}
+			bool classic = clkPins.size() <= 1 && rstPins.size() <= 1 && (edges.empty() || edges == "R");
+			std::map<const hlim::Clock*, std::string> resetNames;
+			std::string clkPort = "-";
+
 			// ---- export with the test-bench recorder attached to a simulator driven by a simulation process ----
 			{
 				sim::ReferenceSimulator sim(false);
@@ -167,9 +281,17 @@ int main(int argc, char **argv) {
 				}
 				// the dump is taken from the circuit object the exporter has just serialised
 				nd::dumpNetlist(design.getCircuit(), net, prog.id, true);
+				// names the exporter gave to the clock / reset ports of the root entity
+				{
+					auto *root = vhdl.getAST()->getRootEntity();
+					for (auto *c : root->getClocks()) if (c->isSelfDriven(false, true)) clkPort = root->getNamespaceScope().getClock(c).name;
+					for (auto *c : root->getResets()) if (c->isSelfDriven(false, false)) resetNames[c] = root->getNamespaceScope().getReset(c).name;
+				}
 
-				if (!stims.empty()) {
-					const auto &stim = stims[0];
+				const bool tvHalf = !hstims.empty();
+				const hlim::ClockRational tvStep = tvHalf ? period / 2ull : period;
+				if (!stims.empty() || tvHalf) {
+					const auto &stim = tvHalf ? hstims[0] : stims[0];
 					auto *simp = &sim;
 					auto *tb = &tbtrace;
 					sim.addSimulationProcess([=, &stim]() -> SimProcess {
@@ -185,17 +307,26 @@ int main(int argc, char **argv) {
 								*tb << " " << nd::bitsOrE(simp->simProcGetValueOfOutput(drv));
 							}
 							*tb << "\n";
-							co_await WaitFor(period);
+							co_await WaitFor(tvStep);
 						}
 					});
 					sim.compileProgram(design.getCircuit());
 					sim.powerOn();
-					sim.advance(period / 4ull + period * (uint64_t)stim.size() + period / 8ull);
+					sim.advance(period / 4ull + tvStep * (uint64_t)stim.size() + period / 8ull);
 				} else {
 					sim.compileProgram(design.getCircuit());
 					sim.powerOn();
 				}
 				// VHDLExport's destructor flushes the recorder
+			}
+			{
+				std::string meta = std::string("classic=") + (classic ? "1" : "0") + " clkport=" + clkPort + " edges=" + (edges.empty() ? std::string("-") : edges) + " resets=";
+				bool first = true;
+				for (auto &r : resetNames) { meta += (first ? "" : ",") + r.second + ":" + (r.first->getRegAttribs().resetActive == hlim::RegisterAttributes::Active::HIGH ? "1" : "0"); first = false; }
+				if (first) meta += "-";
+				std::ofstream(base + ".meta") << meta << "\n";
+				for (size_t k = 0; k < hstims.size(); k++)
+					runHalfTrace(design.getCircuit(), period, hstims[k], htrace, prog.id + " " + (mode == "replay" ? std::string("replay") : "h" + std::to_string(k)), meta, resetNames);
 			}
 			for (size_t k = 0; k < stims.size(); k++)
 				nd::runTrace(design.getCircuit(), period, stims[k], trace, prog.id + " " + (mode == "replay" ? std::string("replay") : std::to_string(k)));
